@@ -671,6 +671,10 @@ class Engine:
         pos = []
         if c.varargs:
             pos = list(args.pop(c.varargs))
+        kwname = node.args.kwarg.arg if getattr(node, 'args', None) is not None and node.args.kwarg is not None else None
+        if kwname and isinstance(args.get(kwname), dict):
+            # def f(self, **kwargs): the contract's dict parameter of that name is the set of keyword arguments
+            args.update(args.pop(kwname))
         fn = Func(node, Env(m), m, self_obj=self_obj, cls=ci, name=c.qual)
         self.cur_fnode = node
         self.cur_old_env = old_env
